@@ -107,7 +107,7 @@ from jsonpath_rfc9535.function_extensions import Count, ExpressionType, FilterFu
 from jsonpath_rfc9535.segments import JSONPathChildSegment, JSONPathRecursiveDescentSegment, JSONPathSegment  # noqa: E402
 from jsonpath_rfc9535.selectors import (  # noqa: E402
     FilterSelector, IndexSelector, JSONPathSelector, NameSelector, SliceSelector, WildcardSelector)
-from jsonpath_rfc9535.tokens import Token  # noqa: E402
+from jsonpath_rfc9535.tokens import Token, TokenStream, TokenType  # noqa: E402
 from jsonpath_rfc9535.lex import Lexer  # noqa: E402
 
 
